@@ -427,7 +427,8 @@ class Tr:
             return self.cond(c, env, th, el)
         if kind == "while":
             c, body = s[1], s[2]
-            muts = sorted({a[1][1] for a in self.assigned(body) if a[1][0] == "var" and a[1][1] in env and env[a[1][1]][0] == "mutnat"})
+            mset = {a[1][1] for a in self.assigned(body) if a[1][0] == "var" and a[1][1] in env and env[a[1][1]][0] == "mutnat"}
+            muts = [m for m in env if m in mset]     # declaration order: renaming a counter does not reorder the loop state
             if not muts:
                 raise CannotTranslate("`while` that updates no outer `let mut` counter")
             loc = {m: self.new(m) for m in muts}
